@@ -3,7 +3,7 @@ from props import _rtb
 LEVEL = 'exploration'
 PID = 'C04'
 SCRIPT = 'b_c04.py'
-SPEC = {'quick': {'designs': 150, 'styles': 1, 'files': {'verilog': 27000}, 'limit': 20, 'file_limit': 60},
+SPEC = {'quick': {'designs': 150, 'styles': 2, 'files': {'verilog': 30000}, 'limit': 20, 'file_limit': 60},
         'thorough': {'designs': 2500, 'styles': 1, 'files': {'verilog': 140000}, 'limit': 20, 'file_limit': 400}}
 RULE = ('case = (netlist the Verilog reader returns for text of the independent writer or for a bundled .v archive, transform in '
         'none/clone/uniquify/uniquify+flatten) written by sdn.compose(.v) and re-read; every generated design is run untransformed and '
@@ -17,7 +17,7 @@ def run(rep, tier, seed):
                        'joined bit pairs; written text accepted; Inv of the re-read netlist. Normalisations from the support page: undefined '
                        'port direction is written as inout; cables that exist only because a port implies them are ignored on both sides')
     rep.assumptions.append('tier B: everything outside the stated bounds is unexplored; flatten is applied after uniquify (its precondition)')
-    _rtb.run(rep, PID, SCRIPT, tier, seed, SPEC, RULE, extra={'transform_files_below': 12000})
+    _rtb.run(rep, PID, SCRIPT, tier, seed, SPEC, RULE, extra={'transform_files_below': 12000}, gen_bounds=_rtb.HIER_BOUNDS)
 
 
 def replay(path):
